@@ -248,6 +248,24 @@ def prop(case):
         out.append(')')
     out.append(')')
     stext = '\n'.join(out) + '\n'
+    poisoned = (case['seed'] // 7) % 3 == 0
+    if poisoned:
+        # history: an earlier parse in the same process that fails half-way (a truncated file naming every connected pin of the design, with
+        # other values) - whatever the reader had collected by then must not show up in the next file's annotation
+        bad = ['(DELAYFILE', '(SDFVERSION "OVI 2.1")', '(DESIGN "top")', '(TIMESCALE 1ns)']
+        for j, i_ in enumerate(insts):
+            cin = [p_ for p_, s_ in i_['ins'].items() if s_ is not None]
+            if not cin or not i_['outs']:
+                continue
+            o_ = list(i_['outs'])[0]
+            ents = ' '.join(f'(IOPATH {"" if (j + k) % 3 == 0 else "(posedge " if (j + k) % 3 == 1 else "(negedge "}{p_}{"" if (j + k) % 3 == 0 else ")"} {o_} '
+                            f'({7 + k}.25:{8 + k}.25:{9 + k}.25) ({10 + k}.5:{11 + k}.5:{12 + k}.5))' for k, p_ in enumerate(cin))
+            bad.append(f'(CELL (CELLTYPE "{i_["cell"]}") (INSTANCE {sdf_name(i_["name"], plain=j % 2 == 1)}) (DELAY (ABSOLUTE {ents})))')
+        bad.append('(CELL (CELLTYPE "BUF") (INSTANCE cut_off_here) (DELAY (ABSOLUTE (IOPATH A')
+        try:
+            sdf.parse('\n'.join(bad) + '\n')
+        except Exception:          # the truncated file is rejected; how is not the subject
+            pass
     df = sdf.parse(stext)
     if case['hdr'] % 2:
         # the same parse result is first applied to the other model of the design (same module name, other branchforks setting):
@@ -287,6 +305,7 @@ def prop(case):
     if per_inst.get(None, 0) >= 2: labels.append('repeated_interconnect_blocks')
     if edge_used: labels.append('edge_qualified')
     if case['hdr'] % 2: labels.append('parse_result_used_for_two_models')
+    if poisoned: labels.append('after_a_failed_parse_of_a_truncated_file')
     if empty_used: labels.append('empty_value')
     return Obs(multi and edge_used and empty_used, labels, checks=2)
 
